@@ -13,7 +13,7 @@ Decided:
               graph tracks from the handle's in-memory state and clears their TOC manifests when that state is empty.
               So in open_locked the loader of every such track (the callee that stores Memvid.<track>) must run
               before recover_wal, never after it - otherwise a replay persists an empty track over the committed one.
-              The set of tracks is read off rebuild_indexes (Toc fields it can set to None that have an in-memory
+              The set of tracks is read off rebuild_indexes (Toc fields it sets to None on a test of their in-memory
               twin on Memvid), not listed by hand.
   MPT-C27d    cards reach the next commit: cards live only in the handle's memory until a commit persists the track, and
               Drop commits only a dirty handle. In put_internal a mutation of Memvid.memories_track that can follow a
@@ -41,7 +41,16 @@ def loaders_before_replay(ctx, F):
     for st in lib.field_stores(rb, 'Toc'):
         fo = st['lhs'].field_owners()
         if fo[-1][0] == 'Toc' and fo[-1][1] in mem_fields and 'Option::None' in lib.slice_back(rb, lib.rv_operands(st['rv']), through_calls=False, at=(st['bb'], st['idx'])).aggs:
-            tracks.add(fo[-1][1])
+            # ... and the manifest is cleared *because the in-memory twin is empty* (a test on Memvid.<track> decides it)
+            f = fo[-1][1]
+            cond = False
+            for bs in lib.bool_switches(rb):
+                for edge in (bs['t_true'], bs['t_false']):
+                    if lib.edge_dominates(rb, bs['bb'], edge, st['bb']) and \
+                            lib.slice_back(rb, [{'c': {'l': bs['local'], 'p': []}}], through_calls=True, at=(bs['bb'], None)).has_field('Memvid', f):
+                        cond = True
+            if cond:
+                tracks.add(f)
     ctx.floor('MPT-C27c', len(tracks), 2, 'tracks rebuild_indexes re-persists from in-memory state (memories_track, logic_mesh)')
     sb, _ = ol.success_block(rw[0])
     after = ol.reachable(sb) if sb is not None else set()
